@@ -184,7 +184,7 @@ def split_groups(path, nshards, min_events=1500):
     if n == 0:
         return []
     nshards = max(1, min(nshards, n // min_events if n >= min_events else 1))
-    has_marks = any('"g":1' in l or '"g": 1' in l for l in lines[:2000])
+    has_marks = any('"g":1' in l or '"g": 1' in l for l in lines)
     target = (n + nshards - 1) // nshards
     shards, cur = [], []
     for l in lines:
